@@ -1,15 +1,346 @@
 import CkbVerif.Model.Reward
 import CkbVerif.Model.Dao
-namespace CkbVerif.C06
-open CkbVerif.Arith CkbVerif.Reward
+import CkbVerif.Lemmas.Dao
+import CkbVerif.Lemmas.Reward
 
-/-- per fee, the proposer's and the committer's shares sum to the fee exactly -/
+/-!
+# C06 — rewards, fee split and DAO field follow the issuance rules; nothing else mints
+
+Theorems about `Model/Reward.lean` and `Model/Dao.lean` (which follow
+`util/reward-calculator/src/lib.rs` and `util/dao/src/lib.rs` line by line). All statements are
+for arbitrary inputs (no bounds); `= some v` / `= .ok v` hypotheses say "the code returned a
+value" (no `Err(Overflow)`, no panic).
+-/
+namespace CkbVerif.C06
+open CkbVerif.Arith CkbVerif.Reward CkbVerif.Dao
+
+/-! ## fee split -/
+
+/-- per fee, the proposer's and the committer's shares sum to the fee exactly
+(`fee − ⌊fee·r⌋` is used for the committer, not `⌊fee·(1−r)⌋`) -/
 theorem shares_sum_to_fee (r : Ratio) (fee p c : Nat)
     (hp : proposerShare r fee = some p) (hc : committerShare r fee = some c) : p + c = fee := by
-  unfold committerShare at hc
-  unfold proposerShare at hp
-  rw [hp] at hc
-  simp [safeSub, subChk] at hc
+  obtain ⟨_, _, rfl⟩ := proposerShare_some.1 hp
+  obtain ⟨_, _, h, rfl⟩ := committerShare_some.1 hc
   omega
+
+example : proposerShare proposerRatio 9 = some 3 ∧ committerShare proposerRatio 9 = some 6 := by decide
+
+/-- the proposer's share is `⌊fee·numer/denom⌋`, and at most the fee when `numer ≤ denom` -/
+theorem proposer_share_eq_floor (r : Ratio) (fee p : Nat) (hp : proposerShare r fee = some p) :
+    p = fee * r.numer / r.denom ∧ (r.numer ≤ r.denom → p ≤ fee) := by
+  obtain ⟨_, h0, rfl⟩ := proposerShare_some.1 hp
+  refine ⟨rfl, fun hle => ?_⟩
+  have h1 : fee * r.numer ≤ fee * r.denom := Nat.mul_le_mul_left _ hle
+  calc fee * r.numer / r.denom ≤ fee * r.denom / r.denom := Nat.div_le_div_right h1
+    _ = fee := Nat.mul_div_cancel _ (Nat.pos_of_ne_zero h0)
+
+/-- both shares are defined for every fee that can occur with the consensus ratio
+(`fee·numer < 2^64`; for 4/10 every fee below 2^62) -/
+theorem shares_defined (r : Ratio) (fee : Nat) (h0 : r.denom ≠ 0) (hle : r.numer ≤ r.denom)
+    (hf : fee * r.numer < U64) :
+    ∃ p c, proposerShare r fee = some p ∧ committerShare r fee = some c := by
+  refine ⟨_, _, proposerShare_some.2 ⟨hf, h0, rfl⟩, committerShare_some.2 ⟨hf, h0, ?_, rfl⟩⟩
+  exact ((proposer_share_eq_floor r fee _ (proposerShare_some.2 ⟨hf, h0, rfl⟩)).2 hle)
+
+/-- `txs_fees` is the sum of the committer shares, and together with the proposer shares of the
+same fees it is exactly the sum of the fees -/
+theorem txs_fees_eq_sum (r : Ratio) (fees : List Nat) (v : Nat) (h : txsFees r fees = some v) :
+    v = committerSum r fees ∧ v + proposerSum r fees = feeSum fees := by
+  rcases txsFeesFrom_some h with ⟨a, b, _⟩ | ⟨rfl, rfl⟩
+  · omega
+  · simp [committerSum, proposerSum, feeSum]
+
+example : txsFees proposerRatio [100, 20, 33, 34, 9] = some 119 := by decide
+
+/-! ## block reward: nothing else mints -/
+
+/-- the total of `block_reward_internal` is exactly the sum of the four parts, and the parts are
+reported unchanged -/
+theorem total_reward_eq_parts (txFee proposal primary secondary : Nat) (br : BlockReward)
+    (h : totalReward txFee proposal primary secondary = some br) :
+    br.total = br.primary + br.secondary + br.txFee + br.proposalReward ∧
+    br.primary = primary ∧ br.secondary = secondary ∧ br.txFee = txFee ∧
+    br.proposalReward = proposal := by
+  obtain ⟨_, rfl⟩ := totalReward_some.1 h
+  exact ⟨by show txFee + proposal + primary + secondary = primary + secondary + txFee + proposal; omega,
+    rfl, rfl, rfl, rfl⟩
+
+example : totalReward 115 40 1000 7 = some ⟨1162, 1000, 7, 115, 40⟩ := by decide
+
+/-- `block_reward_internal`: when it returns, the four parts are `txs_fees`, `proposal_reward`,
+`primary_block_reward`, `secondary_block_reward` of the target and the total is their sum -/
+theorem block_reward_eq_parts (w : Win) (r : Ratio) (ser : Nat) (chain : List Blk) (e : Epoch)
+    (pd : DaoField) (P t : Nat) (br : BlockReward)
+    (h : blockReward w r ser chain e pd P t = .ok br) :
+    txsFees r (blkAt chain t).fees = some br.txFee ∧
+    proposalReward w r chain P t = some br.proposalReward ∧
+    primaryBlockReward e t = .ok br.primary ∧
+    secondaryBlockReward ser e t pd = .ok br.secondary ∧
+    br.total = br.primary + br.secondary + br.txFee + br.proposalReward := by
+  unfold Reward.blockReward at h
+  simp only [bind_ok, ovf_ok] at h
+  obtain ⟨a, ha, b, hb, c, hc, d, hd, h⟩ := h
+  cases ht : totalReward a b c d with
+  | none => simp [ht, throw, throwThe, MonadExceptOf.throw] at h
+  | some br' =>
+    simp only [ht, pure_ok] at h
+    subst h
+    obtain ⟨h1, h2, h3, h4, h5⟩ := total_reward_eq_parts _ _ _ _ _ ht
+    exact ⟨by rw [h4]; exact ha, by rw [h5]; exact hb, by rw [h2]; exact hc, by rw [h3]; exact hd, h1⟩
+
+/-- `RewardVerifier`: a block passes iff, in the two exempt cases (no finalisation target yet /
+reward too small to create a cell), the cellbase has no outputs, and otherwise the cellbase
+outputs sum to exactly the reward total and the first output carries the target's lock -/
+theorem cellbase_capacity_eq_reward (w : Win) (P total lockOcc : Nat) (outs : List (Nat × Bool))
+    (h : rewardVerify w P total lockOcc outs = some .ok) :
+    ((P + 1 ≤ finalizationDelay w ∨ lockOcc > total) ∧ outs = []) ∨
+    (¬ (P + 1 ≤ finalizationDelay w ∨ lockOcc > total) ∧
+      outs.foldlM (fun acc o => safeAdd acc o.1) 0 = some total ∧
+      ∃ o rest, outs = o :: rest ∧ o.2 = true) := by
+  unfold rewardVerify at h
+  by_cases hex : P + 1 ≤ finalizationDelay w ∨ lockOcc > total
+  · left
+    simp only [hex, if_true, Option.some.injEq] at h
+    refine ⟨hex, ?_⟩
+    cases outs with
+    | nil => rfl
+    | cons o rest => simp at h
+  · right
+    simp only [hex, if_false] at h
+    refine ⟨hex, ?_⟩
+    cases hs : outs.foldlM (fun acc o => safeAdd acc o.1) 0 with
+    | none => simp [hs] at h
+    | some s =>
+      simp only [hs] at h
+      by_cases hst : s ≠ total
+      · simp [hst] at h
+      · have hst' : s = total := by omega
+        simp only [hst, if_false] at h
+        cases outs with
+        | nil => simp at h
+        | cons o rest =>
+          refine ⟨by rw [hst'], o, rest, rfl, ?_⟩
+          by_cases ho : o.2 = true
+          · exact ho
+          · simp [ho] at h
+
+example : rewardVerify defaultWin 11 1000 6100000000 [] = some .ok ∧
+    rewardVerify defaultWin 11 7000000000 6100000000 [(7000000000, true)] = some .ok ∧
+    rewardVerify defaultWin 11 7000000000 6100000000 [(7000000001, true)] = some .invalidRewardAmount ∧
+    rewardVerify defaultWin 10 7000000000 6100000000 [(7000000000, true)] = some .invalidRewardTarget := by
+  decide
+
+/-! ## the proposer share: the backwards walk -/
+
+/-- `proposal_reward` is the sum of `⌊fee·r⌋` over the fees the walk selects -/
+theorem proposal_reward_eq_sum (w : Win) (r : Ratio) (chain : List Blk) (P t v : Nat)
+    (h : proposalReward w r chain P t = some v) : v = paidSum r (paidList w chain P t) := by
+  have := sumShares_some h; omega
+
+/-- every fee whose proposer share goes to target `t` (finalised on top of parent `P`) belongs to
+a transaction committed in a block `c ≤ P` whose id `t` proposed (itself or an uncle), and no
+block the walk treats as an earlier proposer (`max (i − w_far) 1` for `c ≤ i < P`) proposed it -/
+theorem paid_only_to_earliest_proposer (w : Win) (chain : List Blk) (P t : Nat) (e : Paid)
+    (he : e ∈ paidList w chain P t) :
+    e.id ∈ (blkAt chain t).props ∧ e.blk ≤ P ∧
+    (e.id, e.fee) ∈ (blkAt chain e.blk).commitIds.zip (blkAt chain e.blk).fees ∧
+    ∀ i, e.blk ≤ i → i < P → e.id ∉ (blkAt chain (max (i - w.far) 1)).props := by
+  obtain ⟨a, b, c, d⟩ := paidList_spec w chain P t e he
+  exact ⟨a, b, d, c⟩
+
+/-- each committed transaction's proposer share is paid for at most one finalising block
+(equivalently at most one target): two blocks `P₁+1`, `P₂+1` that both have a finalisation target
+never both pay the proposer share of the same commit `(block, id)` -/
+theorem proposer_share_paid_at_most_once (w : Win) (chain : List Blk) (P₁ P₂ : Nat) (e₁ e₂ : Paid)
+    (hf₁ : finalizationDelay w < P₁ + 1) (hf₂ : finalizationDelay w < P₂ + 1)
+    (h₁ : e₁ ∈ paidList w chain P₁ (P₁ + 1 - finalizationDelay w))
+    (h₂ : e₂ ∈ paidList w chain P₂ (P₂ + 1 - finalizationDelay w))
+    (hblk : e₁.blk = e₂.blk) (hid : e₁.id = e₂.id) : P₁ = P₂ := by
+  have hd : finalizationDelay w = w.far + 1 := by
+    simp [finalizationDelay, CkbVerif.Gen.Reward.FINALIZATION_DELAY_EXTRA]
+  rw [hd] at hf₁ hf₂ h₁ h₂
+  obtain ⟨a₁, b₁, c₁, _⟩ := paidList_spec w chain _ _ e₁ h₁
+  obtain ⟨a₂, b₂, c₂, _⟩ := paidList_spec w chain _ _ e₂ h₂
+  rcases Nat.lt_trichotomy P₁ P₂ with hlt | heq | hgt
+  · exfalso
+    have := c₂ P₁ (by omega) hlt
+    have hm : max (P₁ - w.far) 1 = P₁ + 1 - (w.far + 1) := by omega
+    rw [hm, ← hid] at this
+    exact this a₁
+  · exact heq
+  · exfalso
+    have := c₁ P₂ (by omega) hgt
+    have hm : max (P₂ - w.far) 1 = P₂ + 1 - (w.far + 1) := by omega
+    rw [hm, hid] at this
+    exact this a₂
+
+/-- a chain on which the hypotheses hold non-trivially: window (2,10); block 2 proposes id 7,
+block 4 commits it (fee 100); block 13 (parent 12, target 2) pays it, block 14 does not -/
+def demoChain (proposer commitAt : Nat) : List Blk :=
+  (List.range 14).map fun n =>
+    ⟨if n = proposer then [7] else [], if n = commitAt then [7] else [], if n = commitAt then [100] else []⟩
+
+example : paidList defaultWin (demoChain 2 4) 12 2 = [⟨4, 7, 100⟩] ∧
+    paidList defaultWin (demoChain 2 4) 13 3 = [] ∧
+    proposalReward defaultWin proposerRatio (demoChain 2 4) 12 2 = some 40 := by decide
+
+/-- **the code as written deviates from the property for target block 1**: block 1 is the first
+and only proposer of id 7, committed in block 3 inside its window, yet the block that finalises
+target 1 (block 12, parent 11) pays no proposer share — `max (index − w_far) 1` clamps to the
+target itself, which then counts as an earlier proposer. Replayed on the real code:
+`corpus/C06/chain-block1-proposer.ops` (known finding `block1-proposer-share-unpaid`). -/
+theorem block1_proposer_share_unpaid_witness :
+    (blkAt (demoChain 1 3) 1).props = [7] ∧ (blkAt (demoChain 1 3) 3).commitIds = [7] ∧
+    (∀ n, n < 14 → n ≠ 1 → (blkAt (demoChain 1 3) n).props = []) ∧
+    proposalReward defaultWin proposerRatio (demoChain 1 3) 11 1 = some 0 := by decide
+
+/-! ## the DAO field -/
+
+/-- `header.dao = rule(parent.dao)`: whenever `dao_field_with_current_epoch`'s arithmetic returns,
+C' = C + g + g2, U' = U + added − freed, S' = S + (g2 − ⌊g2·U/C⌋) − interests,
+AR' = AR + ⌊AR·g2/C⌋ as exact equations on naturals, and all four fit in a u64 -/
+theorem dao_field_eq_rule (p d : DaoField) (g g2 added freed interests : Nat)
+    (h : daoUpdate p g g2 added freed interests = .ok d) :
+    p.c ≠ 0 ∧
+    d.c = p.c + g + g2 ∧
+    d.u + freed = p.u + added ∧
+    d.s + interests = p.s + (g2 - g2 * p.u / p.c) ∧
+    d.ar = p.ar + p.ar * g2 / p.c ∧
+    d.c < U64 ∧ d.u < U64 ∧ d.s < U64 ∧ d.ar < U64 := by
+  obtain ⟨h0, h1, h2, h3, h4, h5, h6, h7, h8, h9, h10, rfl⟩ := daoUpdate_ok.1 h
+  simp only
+  generalize g2 * p.u / p.c = m at *
+  generalize p.ar * g2 / p.c = inc at *
+  refine ⟨h0, ?_, ?_, ?_, ?_, ?_, ?_, ?_, ?_⟩ <;> first | trivial | omega
+
+/-- the rule is total on the states a valid chain produces: with `0 < C`, `U ≤ C`, no u64
+overflow of the four results and enough `U`/`S` to subtract from, the code returns a value -/
+theorem dao_update_defined (p : DaoField) (g g2 added freed interests : Nat)
+    (hc : p.c ≠ 0) (hu : p.u ≤ p.c) (hC : p.c + (g + g2) < U64) (hU : p.u + added < U64)
+    (hfreed : freed ≤ p.u + added) (hS : p.s + g2 < U64)
+    (hint : interests ≤ p.s + (g2 - g2 * p.u / p.c)) (hAR : p.ar + p.ar * g2 / p.c < U64) :
+    ∃ d, daoUpdate p g g2 added freed interests = .ok d := by
+  have hm : g2 * p.u / p.c ≤ g2 := by
+    calc g2 * p.u / p.c ≤ g2 * p.c / p.c := Nat.div_le_div_right (Nat.mul_le_mul_left _ hu)
+      _ = g2 := Nat.mul_div_cancel _ (Nat.pos_of_ne_zero hc)
+  have hU64 : (0 : Nat) < U64 := by decide
+  generalize hmd : g2 * p.u / p.c = m at *
+  generalize hid : p.ar * g2 / p.c = inc at *
+  exact ⟨_, daoUpdate_ok.2 ⟨hc, by omega, by omega, hC, hU, hfreed, by omega, by omega, by omega,
+    by omega, by omega, rfl⟩⟩
+
+example : (daoUpdate ⟨10000000000123456, 500000000123000, 400000000123, 600000000000⟩
+    50000000000 29349527985 500000000 0 0).toOption =
+    some ⟨10000586990683018, 500079349650985, 429314308675, 600500000000⟩ := by decide
+
+/-- issuance conservation: the miner's secondary reward for a block (`secondary_block_reward`,
+computed from the same parent field) plus what the DAO field adds to `S` for it is exactly the
+block's secondary issuance `g2` -/
+theorem secondary_issuance_conserved (p d : DaoField) (g g2 added freed interests m : Nat)
+    (h : daoUpdate p g g2 added freed interests = .ok d) (hm : minerIssuance g2 p.u p.c = .ok m) :
+    m + (d.s + interests - p.s) = g2 ∧ m ≤ g2 := by
+  obtain ⟨h0, h1, h2, h3, h4, h5, h6, h7, h8, h9, h10, rfl⟩ := daoUpdate_ok.1 h
+  obtain ⟨_, _, rfl⟩ := minerIssuance_ok.1 hm
+  simp only
+  generalize g2 * p.u / p.c = m at *
+  constructor <;> omega
+
+/-- AR never decreases and C grows by exactly the block's issuance -/
+theorem ar_monotone_c_grows (p d : DaoField) (g g2 added freed interests : Nat)
+    (h : daoUpdate p g g2 added freed interests = .ok d) :
+    p.ar ≤ d.ar ∧ p.c ≤ d.c ∧ (0 < g + g2 → p.c < d.c) := by
+  obtain ⟨_, hc, _, _, har, _⟩ := dao_field_eq_rule p d g g2 added freed interests h
+  generalize p.ar * g2 / p.c = inc at har
+  omega
+
+/-- `U` tracks the occupied capacity of the live-cell set: if the parent's `U` is the occupied
+capacity of its live set, and this block's `added` / `freed` are the occupied capacities of the
+cells it creates / consumes (so `live' + freed = live + added`), then `U'` is the occupied
+capacity of the new live set -/
+theorem u_tracks_live_occupied (p d : DaoField) (g g2 added freed interests live live' : Nat)
+    (h : daoUpdate p g g2 added freed interests = .ok d)
+    (hp : p.u = live) (hl : live' + freed = live + added) : d.u = live' := by
+  obtain ⟨_, _, hu, _⟩ := dao_field_eq_rule p d g g2 added freed interests h
+  omega
+
+/-- `secondary_block_reward` is `⌊g2·U_parent/C_parent⌋` of the target's secondary issuance
+(0 for the genesis block) -/
+theorem secondary_block_reward_eq (ser : Nat) (e : Epoch) (t : Nat) (pd : DaoField) (v : Nat)
+    (h : secondaryBlockReward ser e t pd = .ok v) :
+    (t = 0 ∧ v = 0) ∨
+    (t ≠ 0 ∧ ∃ g2, secondaryIssuance e t ser = .ok g2 ∧ pd.c ≠ 0 ∧ v = g2 * pd.u / pd.c) := by
+  unfold secondaryBlockReward at h
+  by_cases ht : t = 0
+  · left; simp [ht, pure, Except.pure] at h; exact ⟨ht, h.symm⟩
+  · right
+    simp only [ht, if_false, bind_ok] at h
+    obtain ⟨g2, hg, hm⟩ := h
+    obtain ⟨h0, _, rfl⟩ := minerIssuance_ok.1 hm
+    exact ⟨ht, g2, hg, h0, rfl⟩
+
+/-! ## NervosDAO withdrawal -/
+
+/-- `calculate_maximum_withdraw` returns `occupied + (⌊counted·AR_w/AR_d⌋ mod 2^64)` with
+`counted = capacity − occupied`; in particular exactly `occupied + ⌊counted·AR_w/AR_d⌋` whenever
+that quotient fits in a u64 -/
+theorem withdraw_eq_formula (c : Cell) (dataCap dn da wn wa w : Nat)
+    (h : maxWithdrawWith c dataCap dn da wn wa = .ok w) :
+    dn < wn ∧ da ≠ 0 ∧ ∃ occ, occupiedWith c dataCap = .ok occ ∧ occ ≤ c.cap ∧
+      w = ((c.cap - occ) * wa / da) % U64 + occ ∧
+      ((c.cap - occ) * wa / da < U64 → w = (c.cap - occ) * wa / da + occ) := by
+  obtain ⟨h1, occ, h2, h3, h4, _, rfl⟩ := maxWithdrawWith_ok.1 h
+  refine ⟨h1, h4, occ, h2, h3, rfl, fun hq => ?_⟩
+  rw [Nat.mod_eq_of_lt hq]
+
+/-- a withdrawal never pays less than the deposit when the rate did not fall, and the interest
+is at most `⌊counted·(AR_w − AR_d)/AR_d⌋ + …` — precisely: `w − capacity = ⌊counted·AR_w/AR_d⌋ − counted` -/
+theorem withdraw_ge_deposit (c : Cell) (dataCap dn da wn wa w : Nat)
+    (h : maxWithdrawWith c dataCap dn da wn wa = .ok w) (hr : da ≤ wa) :
+    ∃ occ, occupiedWith c dataCap = .ok occ ∧
+      ((c.cap - occ) * wa / da < U64 → c.cap ≤ w ∧ w - c.cap = (c.cap - occ) * wa / da - (c.cap - occ)) := by
+  obtain ⟨_, h0, occ, ho, hle, _, hq⟩ := withdraw_eq_formula c dataCap dn da wn wa w h
+  refine ⟨occ, ho, fun hlt => ?_⟩
+  have hw := hq hlt
+  have hge : c.cap - occ ≤ (c.cap - occ) * wa / da := by
+    calc c.cap - occ = (c.cap - occ) * da / da := (Nat.mul_div_cancel _ (Nat.pos_of_ne_zero h0)).symm
+      _ ≤ (c.cap - occ) * wa / da := Nat.div_le_div_right (Nat.mul_le_mul_left _ hr)
+  omega
+
+/-- equal rates: the withdrawal returns exactly the deposit -/
+theorem withdraw_same_rate (c : Cell) (dataCap dn da wn w : Nat)
+    (h : maxWithdrawWith c dataCap dn da wn da = .ok w) (hc : c.cap < U64) : w = c.cap := by
+  obtain ⟨_, h0, occ, _, hle, _, hq⟩ := withdraw_eq_formula c dataCap dn da wn da w h
+  have e : (c.cap - occ) * da / da = c.cap - occ := Nat.mul_div_cancel _ (Nat.pos_of_ne_zero h0)
+  have := hq (by rw [e]; omega)
+  omega
+
+example : (maxWithdrawWith ⟨100000000000000, 0, none, 10⟩ 1000000000 100 10000000000123456 200
+    10000000001123456).toOption = some 100000000009999 := by decide
+
+/-- the `as u64` narrowing of the withdraw quotient is a silent truncation (the two issuance
+quotients use `u64::try_from`): with a large enough rate ratio the code pays *less* than
+`occupied + ⌊counted·AR_w/AR_d⌋`. Needs `counted·AR_w/AR_d ≥ 2^64`, i.e. not reachable with
+rates produced by the accumulation rule within any realistic horizon; recorded as a latent
+deviation, excluded from the oracle's domain. -/
+theorem withdraw_truncates_witness :
+    (maxWithdrawWith ⟨10000000000000000000, 0, none, 0⟩ 0 1 1 2 2).toOption = some 1553255922190448384 ∧
+    (10000000000000000000 - 4100000000) * 2 / 1 + 4100000000 = 19999999995900000000 := by decide
+
+/-! ## the 32-byte encoding -/
+
+/-- `extract_dao_data (pack_dao_data x) = x` for u64 fields -/
+theorem extract_pack_roundtrip (d : DaoField) (har : d.ar < U64) (hc : d.c < U64)
+    (hs : d.s < U64) (hu : d.u < U64) : extract (pack d) = d ∧ (pack d).length = 32 :=
+  ⟨extract_pack d har hc hs hu, pack_length d⟩
+
+/-- `pack_dao_data (extract_dao_data b) = b` for every 32-byte string: the encoding is a bijection -/
+theorem pack_extract_roundtrip (bs : List Nat) (hl : bs.length = 32) (hb : ∀ b ∈ bs, b < 256) :
+    pack (extract bs) = bs := pack_extract bs hl hb
+
+example : pack ⟨10000000000000000, 3360000145238488200, 35209330473, 504120308900000000⟩ =
+    [0x88, 0x74, 0x33, 0x7e, 0x54, 0x1e, 0xa1, 0x2e, 0x00, 0x00, 0xc1, 0x6f, 0xf2, 0x86, 0x23, 0x00,
+     0x29, 0xbf, 0xa3, 0x32, 0x08, 0x00, 0x00, 0x00, 0x00, 0x71, 0x0b, 0x00, 0xc0, 0xfe, 0xfe, 0x06] := by
+  decide
 
 end CkbVerif.C06
